@@ -493,6 +493,20 @@ def s_index_range(vm, st, callee, args, dest, ret_bb, m):
     return done(vm, st, dest, ret_bb, Ptr(first.cell, cont_path, ('slice', start + lo, hi - lo)))
 
 
+def s_closure_call(vm, st, callee, args, dest, ret_bb, m):
+    """<{closure} as Fn / FnMut / FnOnce<(A, B, ..)>>::call*(closure, (a, b, ..)): a local closure called by name"""
+    tup = args[1] if len(args) > 1 else Agg(None, ())
+    tup = vm.load(st, tup) if isinstance(tup, Ptr) else tup
+    clo = args[0]
+    val = vm.load(st, clo) if isinstance(clo, Ptr) else clo
+    if val is None:
+        # a closure without captures is zero-sized: MIR never initialises the local that holds it
+        cid = re.search(r'\{closure@[^}]*\}', callee).group(0)
+        clo = ClosureV(cid, [])
+    vm.call_closure(st, clo, list(tup.fields), dest, ret_bb)
+    return None
+
+
 def s_peekable(vm, st, callee, args, dest, ret_bb, m):
     itv, _ = get_iter(vm, st, args[0])
     return done(vm, st, dest, ret_bb, Agg(None, [itv, none()], 'Peekable'))
@@ -1568,6 +1582,7 @@ TABLE = [
     (r' as Iterator>::find_map::<', s_iter_consumer('find_map')),
     (r' as Iterator>::position::<', s_iter_consumer('position')),
     (r' as Iterator>::rposition::<', s_iter_rposition),
+    (r'^<\{closure@.*\} as std::ops::(Fn|FnMut|FnOnce)<\(.*\)>>::(call|call_mut|call_once)$', s_closure_call),
     (r'^<(?:Vec<.*>|\[.*\]) as std::ops::Index<std::ops::(RangeFrom|RangeTo|Range)<usize>>>::index$', s_index_range),
     (r' as Iterator>::for_each::<', s_iter_consumer('for_each')),
     (r' as Iterator>::collect::<Vec<', s_iter_consumer('collect')),
